@@ -157,6 +157,13 @@ def Codec.xUserDefined : Codec :=
           else [38, 35] ++ decDigits c ++ [59]),
        cs.any (fun c => !(c < 0x80 || (0xF780 ≤ c && c ≤ 0xF7FF))))⟩
 
+/-- A codec known only at one point: the UTF-8 string `key` encodes to `enc` (no replacements), ASCII
+strings encode to themselves, anything else is treated as unmappable. Used by the lane for encodings
+the model has no table for (Shift_JIS, Big5, GBK): the generator supplies the encoded name
+(assume–guarantee; the Rust side checks it against encoding_rs). -/
+def Codec.given (key enc : Bytes) : Codec :=
+  ⟨fun s => if s == key then (enc, false) else if s.all (· < 128) then (s, false) else ([], true)⟩
+
 /-- bytes.rs:81 `owned_from_str_without_replacements`. -/
 def ownedFromStrWithoutReplacements (c : Codec) (s : Bytes) : Option Bytes :=
   let (bytes, hasReplacements) := c.encode s
@@ -249,6 +256,9 @@ def Attribute.serialize (self : Attribute) : Option Bytes :=
 def eqCaseInsensitive (mixedCase lowercased : Bytes) : Bool :=
   mixedCase.length == lowercased.length && asciiLowerBytes mixedCase == lowercased
 
+/-- base/mod.rs:23 `debug_assert!(lowercased.iter().all(|&b| b == b.to_ascii_lowercase()))`. -/
+def lowercasedArgOk (lowercased : Bytes) : Bool := lowercased.all fun b => b == asciiLower b
+
 /-- The `find` + `set_value` / `push` part of attributes.rs:232-247. -/
 def setAttributeItems (c : Codec) (name value : Bytes) : List Attribute → List Attribute
   | [] => [{ name := name, value := ownedFromStr c value, raw := none }]
@@ -272,6 +282,14 @@ def StartTag.setAttributeWith (reject : List UInt8) (c : Codec) (self : StartTag
   | .ok n => ({ self with attributes := setAttributeItems c n value self.attributes, raw := none }, .ok ())
 
 def StartTag.setAttribute := StartTag.setAttributeWith Gen.Consts.attrNameReject
+
+/-- Does this `set_attribute` call evaluate a FAILING `debug_assert!` of `eq_case_insensitive`
+(a panic in builds with debug assertions, nothing in release builds)? `find` calls it on at least the
+first existing attribute, with the validated name as `lowercased`. -/
+def StartTag.setAttributeDebugAssertFails (c : Codec) (self : StartTag) (name : Bytes) : Bool :=
+  match attrNameFromString c (asciiLowerBytes name) with
+  | .ok n => !self.attributes.isEmpty && !lowercasedArgOk n
+  | .error _ => false
 
 def serializeAttributes : List Attribute → Option Bytes
   | [] => some []
